@@ -308,6 +308,16 @@ try:
 except ImportError:
     pass
 try:
+    from . import mpri_parts
+    PARTS.append(_compose.theorem_part("mpri", mpri_parts.THEOREMS, mpri_parts.LEAN_MODULES))
+except ImportError:
+    pass
+try:
+    from . import e2e_parts
+    PARTS.append(_compose.theorem_part("e2e", e2e_parts.THEOREMS, e2e_parts.LEAN_MODULES))
+except ImportError:
+    pass
+try:
     from . import mp_parts
     PARTS += mp_parts.parts("C01")
 except ImportError:
